@@ -14,7 +14,11 @@
 (*               fixed part -> Rlerror (no tag known to the decoder)       *)
 (*   empty       size = 7 for a type that needs a body -> Rlerror          *)
 (*   overcount   element count larger than the body   -> Rlerror           *)
-(*   overstring  string length pointing past the body -> Rlerror           *)
+(*   overstring  string length pointing past the body (by one byte, two    *)
+(*               bytes, or more)                      -> Rlerror           *)
+(*   truncated   a proper prefix of a well-formed body, of any message     *)
+(*               type and any length (the harness sweeps every type and    *)
+(*               every prefix length)                 -> Rlerror           *)
 (*   paymismatch payload count field /= payload bytes -> Rlerror           *)
 (*   size3       size field below 7      -> connection ends, 7 bytes read  *)
 (*   sizebig     size field msize + 1    -> connection ends, body unread   *)
@@ -27,7 +31,7 @@ EXTENDS Integers, Sequences, FiniteSets, TLC
 CONSTANTS MaxLen     \* longest stream
 
 Served   == {"good", "goodpay", "trailing"}
-Rejected == {"unknown", "shortfixed", "empty", "overcount", "overstring", "paymismatch"}
+Rejected == {"unknown", "shortfixed", "empty", "overcount", "overstring", "paymismatch", "truncated"}
 Fatal    == {"size3", "sizebig", "sizehuge", "cuthdr", "cutbody"}
 Kinds == Served \cup Rejected \cup Fatal
 
